@@ -12,7 +12,7 @@
    from bigdecimal 0.4.10 / num-bigint 0.4.8 and tied by the harness);
    sort_unstable_by is specified by its contract (a sorted permutation). *)
 From Coq Require Import QArith Sorting.Sorted Sorting.Permutation.
-From Sophia.C14 Require Import Model Proofs Context ContextProofs Rounding RoundingProofs Engine EngineProofs.
+From Sophia.C14 Require Import Model Proofs Context ContextProofs Rounding RoundingProofs Engine EngineProofs Directed DirectedProofs.
 Close Scope Q_scope.
 Open Scope N_scope.
 
@@ -395,6 +395,41 @@ Qed.
 Check order_by_on_witnesses.
 Check hypotheses_inhabited.
 
+(* ---------- criteria over variables that the SELECT clause does not keep; the grain of the timeline (Directed.v) ----------
+   exec.rs sorts BEFORE it projects.  The value of a criterion depends on the bindings of [expr_vars] only -- the
+   variable of BOUND, of COALESCE, of the pattern of an EXISTS included --, so dropping other variables before the
+   sort commutes with it; not counting the variable of BOUND does not (witness: ORDER BY DESC(BOUND(?1)), ?0 kept).
+   ORDER BY ties two dateTimes only when they are the same position to the nanosecond (what the parser keeps, and
+   what '<' compares); with any coarser grain the comparator is still a total preorder but two dateTimes that '<'
+   orders are tied. *)
+Check (eval_expr_agree : forall ds gm e b b',
+  agree (expr_vars e) b b' -> eval_expr ds gm b e = eval_expr ds gm b' e).
+Check (eval_expr_project : forall ds gm keep e b, covers keep (expr_vars e) = true ->
+  eval_expr ds gm (project_to keep b) e = eval_expr ds gm b e).
+Check (cmp_sol_project : forall ds gm keep keys b1 b2, covers keep (keys_vars keys) = true ->
+  cmp_sol ds gm keys (project_to keep b1) (project_to keep b2) = cmp_sol ds gm keys b1 b2).
+Check (prune_before_sort_sound : forall ds gm keys keep l, covers keep (keys_vars keys) = true ->
+  prune_then_sort ds gm keys keep l = sort_then_prune ds gm keys keep l).
+Check (prune_bound_variable_refuted :
+  covers [0] (flat_map (fun k => value_vars (fst k)) w_keys) = true
+  /\ map (map fst) (sort_then_prune [] default_matcher w_keys [0] w_sols) = [[0]; [0]]
+  /\ map (fun b => option_map tm (lookup b 0)) (sort_then_prune [] default_matcher w_keys [0] w_sols)
+     = [Some (tm (w_str 98)); Some (tm (w_str 97))]
+  /\ map (fun b => option_map tm (lookup b 0)) (prune_then_sort [] default_matcher w_keys [0] w_sols)
+     = [Some (tm (w_str 97)); Some (tm (w_str 98))]).
+Example prune_hypothesis_inhabited : covers [0; 1] (keys_vars w_keys) = true /\ covers [0] (keys_vars w_keys) = false.
+Proof. split; reflexivity. Qed.
+Check (timeline_cmp_eq : forall a b, timeline_cmp a b = Eq <-> dt_position a = dt_position b).
+Check (date_keys_tied_only_when_same_position : forall a b,
+  value_order_by_cmp (VDate (Some a)) (VDate (Some b)) = Some Eq -> dt_position a = dt_position b).
+Check (coarse_timeline_unit_1 : forall a b, coarse_timeline_cmp 1 a b = timeline_cmp a b).
+Check (coarse_timeline_refuted : forall unit, 1 < unit ->
+  exists a b, dt_partial_cmp a b = Some Lt /\ coarse_timeline_cmp unit a b = Eq).
+Check (coarse_timeline_ms :
+  dt_partial_cmp (Timezoned 1714564800 250300000) (Timezoned 1714564800 250700000) = Some Lt
+  /\ timeline_cmp (Timezoned 1714564800 250300000) (Timezoned 1714564800 250700000) = Lt
+  /\ coarse_timeline_cmp 1000000 (Timezoned 1714564800 250300000) (Timezoned 1714564800 250700000) = Eq).
+
 Print Assumptions order_by_preorder.
 Print Assumptions order_by_antisym.
 Print Assumptions order_by_le_trans.
@@ -501,3 +536,13 @@ Print Assumptions order_by_respects_lt_at.
 Print Assumptions prefix_ok_when_rne.
 Print Assumptions order_by_respects_lt_prefix_restricted.
 Print Assumptions conversion_hypotheses_inhabited.
+Print Assumptions eval_expr_agree.
+Print Assumptions eval_expr_project.
+Print Assumptions cmp_sol_project.
+Print Assumptions prune_before_sort_sound.
+Print Assumptions prune_bound_variable_refuted.
+Print Assumptions timeline_cmp_eq.
+Print Assumptions date_keys_tied_only_when_same_position.
+Print Assumptions coarse_timeline_unit_1.
+Print Assumptions coarse_timeline_refuted.
+Print Assumptions coarse_timeline_ms.
